@@ -44,7 +44,8 @@ def rules(model: Model, tier: str) -> List[RuleResult]:
     ac.ac6_layout(model, fc, R6)
     _ift_system(fc, J)
     _pullback(fc, U)
-    return [R1, R2, R3, R4, R5, R6, J, U]
+    _hy = ac.hygiene_rules(model, ac.get_fncls(model, '_RootFinder'), PROP, min_copies=1, min_opt=2)
+    return [R1, R2, R3, R4, R5, R6, J, U, *_hy]
 
 
 def _saved_output_names(fc) -> set:
